@@ -1048,6 +1048,7 @@ def run(ctx: vlib.Ctx):
         "CodeBuilder.dataclass_fields (K5): classes are abstracted to getattr(cls, '__dataclass_fields__') per MRO entry, own annotated names and cls.__dict__; x[-1:0:-1] / x[1:] are named primitives validated against CPython; that @dataclass fills __dataclass_fields__ as CPython does is not modelled (the real-class runs with inherited / re-declared fields cover it)",
         "positions below a field (Positions.v, K5PKernel.compile): translated = Registry.get, the first handler, the spec.copy of the NewType / Optional / collection-element / Union-member / tuple-item / NamedTuple-field / TypedDict-key descent sites, the class handed to get_(un)pack_method_flags at the dataclass and Self call sites, get_pack_method_flags (K8) and get_unpack_method_flags (K5P); hand-written glue (tied by the real-class path cases only) = which descent site a type takes (is_new_type / is_optional / collection / union dispatch of pack_/unpack_special_typing_primitive and *_collection), that a declined node continues with that site, the fresh ValueSpec of a dataclass field (checked textually), Tuple[Self, ...] treated like a collection element, and that the generated method runs with `dialect` = the forwarded keyword",
         "which descent site a type takes: K5D translates the if/elif chains of pack_/unpack_special_typing_primitive and pack_/unpack_collection over their own test expressions (kept as text); the outcome of each test for a concrete type is computed by the library's predicates in the harness (K5D-dispatch-vs-python) - the predicates themselves (is_new_type, is_optional, issubclass ...) and the registry order between the handlers other than special-before-collection are not modelled",
+        "PositionsV.compile_v: the path cases carry, per position, the valuation of the dispatch tests computed with the library's predicates on the real type object, and the translated chains (K5D) choose the descent site; still hand-modelled: that a dataclass type is taken by the dataclass handler before the chains (VData), and the handlers registered between the special-typing and the collection handler decline for these types",
         "value-dependent selection among Union members (which member packs/unpacks a value) is C11's subject: path cases always use the first member and a second member (int) that never accepts the value",
     ]
     ctx.assumptions += ["strategy values are pass_through, dicts with serialize/deserialize entries, or SerializationStrategy instances (other values are ignored by the code; covered only by the kernel validation)"]
@@ -1167,7 +1168,7 @@ def paths_part(ctx: vlib.Ctx, proofs_ok: bool):
     real classes vs K5PKernel.compile + Positions.ref_compile (in Coq) and vs the property-text oracle."""
     from harness.props import c10_paths as cp
     rng = ctx.rng
-    n = ctx.budget(400, 3000) + (0 if proofs_ok else 600)
+    n = ctx.budget(300, 2500) + (0 if proofs_ok else 600)
     cases = [cp.gen_path_case(rng) for _ in range(n)]
     srcs = [cp.build_source(c, PRELUDE) for c in cases]
     if len(cases) > 1500:
